@@ -413,6 +413,13 @@ func checkHistCase(c histCase) (fw.Outcome, *fw.Violation) {
 	judgedSteps := 0
 	for i, st := range c.Steps {
 		if st.Kind == "fail" {
+			// the failure strikes only after (part of) the underlying query was evaluated: a query the reference gives
+			// up as too big (joins of joins of 30-row tables reach 10^7 rows) is not run at all
+			if _, skip, _ := refOutcome(c.Tables, st.Query); skip == "too_big" || skip == "no_termination" {
+				classes["fail_step_not_run:"+skip] = true
+				fw.AddExtra("history_fail_steps_not_run_"+skip, 1)
+				continue
+			}
 			sql := stepSQL(c.Tables, st, i, 0, 1)
 			res := s.Exec(sql)
 			if res.ParseErr {
